@@ -6,6 +6,7 @@ import Amgcl.Proofs.SkylineCroutAlg
 embeddings `Ld/Ud/Dd`; then `Amgcl.croutInv_step`.
 -/
 namespace Amgcl
+open Arr2
 namespace Skyline
 open Finset
 variable {K : Type} [Field K]
